@@ -47,7 +47,7 @@ def setup(tier):
 def make_input(rng, kind=None):
     """(text, description) of one input structure."""
     from .. import fragments, multiconf, pdbio, sources
-    kind = kind or rng.choice(("cutout", "cutout", "chimera", "small-file", "multiconf", "unknown-element",
+    kind = kind or rng.choice(("cutout", "cluster", "cluster", "chimera", "small-file", "multiconf", "unknown-element",
                                "ligand", "polyamine", "protein", "free-ligand"))
     if kind == "free-ligand":
         # a ligand on its own (symmetric molecules have groups with exactly equal pKa)
@@ -61,7 +61,10 @@ def make_input(rng, kind=None):
     if kind == "protein":
         name = rng.choice(sources.PROTEINS)
         return sources.repo_text(name), {"input": name}
-    if kind == "chimera":
+    if kind == "cluster":
+        from .c15 import cluster_cutout
+        recs = cluster_cutout(rng)
+    elif kind == "chimera":
         recs, _ = sources.chimera(rng)
     elif kind == "multiconf":
         recs, _ = multiconf.build(rng)
@@ -85,7 +88,10 @@ def concretise(opts, text, rng):
     """Replace the symbolic option sets by concrete arguments for this input."""
     from .. import pdbio, util
     if opts == ["PARAMS"]:
-        return ["-p", "CFG:" + json.dumps({"remove_penalised_group": rng.choice((0, 1)), "shared_determinants": rng.choice((0, 1))})]
+        return ["-p", "CFG:" + json.dumps({"remove_penalised_group": rng.choice((0, 1)), "shared_determinants": rng.choice((0, 1)),
+                                           "min_interaction_energy": rng.choice((0.5, 5.0, 0.1)),
+                                           "max_intrinsic_pka_diff": rng.choice((2.0, 6.0, 0.5)),
+                                           "min_swap_pka_shift": rng.choice((1.0, 0.2))}, sort_keys=True)]
     if opts == ["TITRATE"]:
         res = [r for r in util.titratable_residues(pdbio.parse(text)) if r[0] != " "]
         if not res:
@@ -209,6 +215,11 @@ def run_history(case, rng, viol, counts, classes):
             if o == ["-k"] and d.get("input") in ("multiconf",):
                 o = []
             pool.append((i, o))
+        if rng.random() < 0.5:
+            # the same input under two different parameter files and under the default one
+            pool.append((i, concretise(["PARAMS"], text, rng)))
+            pool.append((i, concretise(["PARAMS"], text, rng)))
+            pool.append((i, []))
     calls = [rng.choice(pool) for _ in range(rng.randrange(5, 13))]
     calls[rng.randrange(len(calls))] = calls[0]         # make sure something repeats
     refs = {}
